@@ -816,11 +816,19 @@ func (w *World) probeReads(n *Node) {
 		}
 		w.probe("by-hash-reads")
 	}
+	// fixed order: the reads go through preemption points, whose draws must not depend on map order
+	lv, sv2 := map[Hash]*accountant.Vertex{}, map[Hash]*accountant.Vertex{}
 	for h, sv := range s.Live {
-		check(h, &sv.V)
+		lv[h] = &sv.V
 	}
 	for h, sv := range s.Stored {
-		check(h, &sv.V)
+		sv2[h] = &sv.V
+	}
+	for _, h := range sortedHashes(lv) {
+		check(h, lv[h])
+	}
+	for _, h := range sortedHashes(sv2) {
+		check(h, sv2[h])
 	}
 }
 
